@@ -351,6 +351,20 @@ for file, fn, nm, nbytes, leafs, fl0, variants in (
         d = pe(file, fn, f"{nm}_enc_store_u0", "seg", 1, fl0 + U0, P, ["output"], rows); d["veclanes"] = "explicit"; vp.append(d)
     mods.append({"name": "VecCtr%sPieces" % nm[1:-1], "imports": ["VecCtr%sLeaf" % nm[1:-1]], "entries": vp})
 
+# ---------------------------------------------------------------- vector CTR back end of Mantis: the batch block function (stored tweak, strided counters)
+VMC = "src/mantis-ctr-vec128.c"
+mods.append({"name": "VecMantisCtrLeaf", "entries": [e(VMC, "mantis_sbox", "vmc_sbox", [], 4, {"d": LW}, "direct"),
+                                                      {"file": VMC, "table": "rc", "lean": "vmc_rc", "flags": []}]})
+vp = []
+P = {"output": {"bytes": 64, "out": True}, "input": {"bytes": 64}, "ks": {"bytes": 36}}
+FN = "mantis_ecb_encrypt_eight"
+d = pe(VMC, FN, "vmc_pre", "seg", 0, [], P, ["state", "tweak", "k1"]); d["veclanes"] = "explicit"; d["windows"] = {"r": 8}; vp.append(d)
+d = pe(VMC, FN, "vmc_fwd", "loop", 0, [], P, ["state", "tweak"], ["state", "tweak", "k1", "r_0"]); d["windows"] = {"r": 8}; vp.append(d)
+d = pe(VMC, FN, "vmc_mid", "seg", 1, [], P, ["state", "k1"], ["state", "k1"]); d["windows"] = {"r": 8}; vp.append(d)
+d = pe(VMC, FN, "vmc_bwd", "loop", 1, [], P, ["state", "tweak"], ["state", "tweak", "k1", "r_m1"]); d["windows"] = {"r": 8}; vp.append(d)
+d = pe(VMC, FN, "vmc_post", "seg", 2, [], P, ["output"], ["state", "tweak", "k1", "ks"]); d["veclanes"] = "explicit"; d["windows"] = {"r": 8}; vp.append(d)
+mods.append({"name": "VecMantisCtrPieces", "imports": ["VecMantisCtrLeaf"], "entries": vp})
+
 # ---------------------------------------------------------------- argument guards of the public key/tweak setters
 guards = []
 for file, fns in ((S128, ["skinny128_set_key", "skinny128_set_tweaked_key", "skinny128_set_tweak"]),
